@@ -73,8 +73,21 @@ def main():
             print(json.dumps(rec), flush=True)
         finally:
             shutil.rmtree(base, ignore_errors=True)
-    with open(os.path.join(root, "RESULTS.json"), "w") as f:
-        json.dump(out, f, indent=1)
+    rp = os.path.join(root, "RESULTS.json")
+    merged = {}
+    if os.path.exists(rp):
+        try:
+            merged = {r["id"]: r for r in json.load(open(rp))}
+        except Exception:  # noqa
+            merged = {}
+    for r in out:
+        prev = merged.get(r["id"], {})
+        for k in ("demo_unchanged_exit", "demo_changed_exit"):
+            if k not in r and k in prev:
+                r[k] = prev[k]
+        merged[r["id"]] = r
+    with open(rp, "w") as f:
+        json.dump([merged[k] for k in sorted(merged)], f, indent=1)
     missed = [r["id"] for r in out if not r.get("caught")]
     print("seeded changes: %d evaluated, %d caught, missed: %r" % (len(out), len(out) - len(missed), missed))
     return 0
